@@ -12,6 +12,9 @@ Protocol (stateful; one history per stream):
   pgrad <p> <v,…>               overwrite the gradient of parameter p
   padd <p> <v,…>                p.value() += v   (what an optimizer update does)
   reset <p>                     p.reset_gradient()
+  pinit <p> <d> <k>             p.init(shape, Constant(k), device d): value k everywhere, gradient 0; d = 0 the
+                                device of the history, 1 a second device object of the same backend (devices are
+                                not part of the model: every well-formed call is device-consistent)
   graph                         new Graph (ids 0,1,…)
   P <g> <p>                     parameter node            → `ok n<k>` (node ids are global, consecutive)
   I <g> <v,…>                   input node (constant)
@@ -169,6 +172,12 @@ def step (s : St) (line : String) : St × String :=
   | ["padd", p, v] => match p.toNat?, parseVec s.D v with
     | some p, some v => if p < s.pval.length then ({ s with pval := s.pval.set p (addV (s.pval.getD p []) v) }, "ok") else (s, "bad-op")
     | _, _ => (s, "bad-op")
+  | ["pinit", p, d, k] => match p.toNat?, d.toNat?, k.toInt? with
+    | some p, some d, some k =>
+      if p < s.pval.length && d ≤ 1 && -1000 ≤ k && k ≤ 1000 then
+        ({ s with pval := s.pval.set p (List.replicate s.D k), pgrad := s.pgrad.set p (List.replicate s.D 0) }, "ok")
+      else (s, "bad-op")
+    | _, _, _ => (s, "bad-op")
   | ["reset", p] => match p.toNat? with
     | some p => if p < s.pgrad.length then ({ s with pgrad := s.pgrad.set p (List.replicate s.D 0) }, "ok") else (s, "bad-op")
     | none => (s, "bad-op")
